@@ -97,3 +97,32 @@ def alt_layouts(M):
     big = np.full((2 * M.shape[0] + 1, 2 * M.shape[1] + 1), 0.123, dtype=M.dtype)
     big[1::2, 1::2] = M
     return {'fortran': np.asfortranarray(M), 'transposed-view': np.ascontiguousarray(M.T).T, 'strided': big[1::2, 1::2]}
+
+
+def reused_container(form, decoy, trajs, dtypes, first_use):
+    """A container that was handed to the library with OTHER contents before (first_use(container) is
+    called, errors ignored) and was then changed in place to denote `trajs`: lists are cleared and
+    refilled / extended, arrays of equal shape are overwritten. Returns None when the form cannot be
+    changed in place (tuples, objects, different array shapes)."""
+    if form in ('lol', 'loa', 'list'):
+        c = build(form, decoy, dtypes)
+        try:
+            first_use(c)
+        except Exception:  # noqa
+            pass
+        new = build(form, trajs, dtypes)
+        del c[:]
+        c.extend(new)
+        return c
+    if form in ('arr1', 'arr2'):
+        new = build(form, trajs, dtypes)
+        old = build(form, decoy, dtypes)
+        if old.shape != new.shape:
+            return None
+        try:
+            first_use(old)
+        except Exception:  # noqa
+            pass
+        old[...] = new
+        return old
+    return None
